@@ -62,6 +62,12 @@ def mutate(r, x, d=0):
         if r.random() < 0.3 and y:
             k = r.choice(list(y))
             y[k + "x"] = y.pop(k)
+        if r.random() < 0.25 and y:
+            # rename a key to a same-length name AND change its value (pairs that only the matcher can pair up)
+            k = r.choice(list(y))
+            v = y.pop(k)
+            nk = (k[:-1] + ("q" if not k.endswith("q") else "r")) if k else "q"
+            y[nk] = almost(r, v) if not isinstance(v, (list, dict)) else mutate(r, v, d + 1)
         return y
     if r.random() < 0.5:
         return almost(r, x)
@@ -103,6 +109,8 @@ FORCED = [
     ([[[2]]], [[], [[10, "a"]]]), ({"a": {"b": [1, 2, 3]}}, {"a": {"b": [1, 3]}, "c": None}),
     ([1, 2, 3, 4, 5], [1, 2, 9, 4, 5]), ([1, 1, 1], [1, 1]), (["a", "b", "c"], ["c", "b", "a"]),
     ({"a": 1, "b": 2}, {"b": 2, "a": 1}), ({"a": 1, "b": 2}, {"a": 2, "b": 1}), ([{"a": 1}], [{"a": 1}, {"a": 1}]),
+    ({"a": "foo", "zzzzzzzzz": "some long thing"}, {"b": "bar"}), ({"b": "bar"}, {"a": "foo", "zzzzzzzzz": [1, 2, 3, 4, 5, 6]}),
+    ({"name": "bob"}, {"nome": "bob", "d": [1, 2, 3, 4]}), ({"k": [[1], "x"]}, {"k": [[1, 2, 3], "y", {"z": None}]}), ([], ["", "b"]),
     ("abc", "abd"), ("a", "b"), ("", "a"), ("hello", "help"), ([[1, 2], [3]], [[3], [1, 2]]),
     ({"ab": [1, 2], "ac": [1, 2]}, {"ab": [1, 2, 3]}), ([None, None], [None]), ([[], []], [[]]),
 ]
